@@ -141,7 +141,7 @@ def modelSeq (engine path : String) (os : List Obj) (d : SeqDiagram) : Option Ve
       let toDesc := (t.id.startsWith (s.id ++ "."))
       let fromDesc := (s.id.startsWith (t.id ++ "."))
       let loop := m.src == m.dst || toDesc || fromDesc || rs == rt
-      let noteOff : Rat := (d.notes.filter (fun n => n.line < m.line)).foldl (fun acc n => acc + n.box.h + yStep) 0
+      let noteOff : Rat := noteOffOf (d.notes.map fun n => (n.line, n.box.h)) m.line
       msgs := msgs ++ [{ srcRank := rs, dstRank := rt, srcIsActor, dstIsActor, srcW := s.box.w, dstW := t.box.w,
                          labelW := m.labelW, labelH := m.labelH, loop, noteOff }]
     | _, _, _, _ => return some (.bad s!"board {path} {name}: endpoints of {m.id} not found")
